@@ -61,6 +61,12 @@ func rngOnly(src *rand.PCGSource) bool { panic("spec only") }
 // wrapInt(x): x reduced to the two's-complement range of IntType (what Go's + - * do).
 func wrapInt(x IntType) IntType { return x }
 
+// pegStatementRules: grammar rules whose alternatives may leave different numbers of values on the operand stack
+// (statements: only a lower bound of the height is part of their contract; every other rule's alternatives must
+// agree exactly).  Read by dsvc's grammar typing pass (C08).
+var pegStatementRules = []string{"dicescript", "stmtSt", "stmtRoot", "stmtLines", "stmtWithBlock", "stmtIf", "stmtWhile", "stmtFunc", "nextLine", "block", "stmtElse",
+	"st_expr", "st_assign_multi", "st_modify_multi_1", "st_modify_multi_rest"}
+
 // sameFloat(a, b): identical float values (spec only; Go's == is not reflexive on NaN).
 func sameFloat(a, b float64) bool { panic("spec only") }
 
